@@ -834,6 +834,313 @@ def family_stream(ctx, drv, scratch, n, tag="family"):
         roundtrip_batch(ctx, drv, [(A, {**desc, "kind": "family/A-after-edit"})], scratch, tag=tag, compressed=True)
 
 
+# --------------------------------------------------------------------------------------
+# Generator lessons of seeded batch 4 (BUILD_GUIDE, round 6): a fixed quota of each input kind in EVERY run.
+# Every lesson triangle goes through `roundtrip_batch` (bytes = Model.encode, Model.decode of the file, Spec.roundTrip
+# on what from_binary returned, from_binary of the model's bytes) exactly like the random ones. Used by C05 and C06.
+# --------------------------------------------------------------------------------------
+
+def warm(t):
+    """read every property / cached_property of a triangle (fields, metadata, slices, ...)"""
+    import functools
+    for name in dir(type(t)):
+        if name.startswith("_") or name.startswith("plot"):
+            continue
+        if isinstance(getattr(type(t), name, None), (property, functools.cached_property)):
+            xcall(getattr, t, name)
+    xcall(len, t)
+
+
+def lcell(kind, ps, pe, ev, vals, m, prev=None):
+    if kind == "I":
+        return IncrementalCell(period_start=ps, period_end=pe, evaluation_date=ev,
+                               prev_evaluation_date=prev or ev - datetime.timedelta(days=30), values=vals, metadata=m)
+    return CLASSES[kind](period_start=ps, period_end=pe, evaluation_date=ev, values=vals, metadata=m)
+
+
+def other_value(rng, v):
+    """a value of the same Python type / dtype / shape with other content"""
+    if v is None:
+        return None
+    t = type(v)
+    if t is bool:
+        return not v
+    if t is int:
+        return v + rng.randrange(1, 1000) if v < 2 ** 62 else v - rng.randrange(1, 1000)
+    if t is float:
+        x = rand_float(rng)
+        return x if struct.pack("<d", x) != struct.pack("<d", v) else 12345.5
+    if t is np.int64:
+        return np.int64(int(v) // 2 + 7)
+    if t is np.float64:
+        return np.float64(0.5) if float(v) != 0.5 else np.float64(1.5)
+    if t is np.ndarray:
+        n = v.size
+        if v.dtype == np.dtype("<i8"):
+            return np.array([rand_int(rng) for _ in range(n)], dtype=np.int64).reshape(v.shape)
+        return np.array([rand_float(rng) for _ in range(n)], dtype=np.float64).reshape(v.shape)
+    return v
+
+
+BIG_INTS = [2 ** 31 - 1, 2 ** 31, 2 ** 31 + 1, 2 ** 32 - 1, 2 ** 32, 2 ** 32 + 1, -2 ** 31, -2 ** 31 - 1, -2 ** 32, -2 ** 32 - 1,
+            2 ** 53 + 1, 2 ** 63 - 1, -2 ** 63, -1, 255, 256, 65535, 65536, -65537, 0x88, 0x8888888888]
+
+
+def lesson_groups(rng, heavy=True):
+    """list of (tag, [(Triangle, desc), ...]); the triangles of one group are written one after the other in one
+    process (and one driver batch)"""
+    groups = []
+    kinds = ["C", "U", "I"]
+    rng.shuffle(kinds)
+    kc = [0]
+
+    def nk():
+        kc[0] += 1
+        return kinds[kc[0] % 3]
+
+    def tri(cells, tag, **extra):
+        t = Triangle(cells)
+        ks = distinct_keys(t.cells)
+        return t, {"kind": f"{tag}", "slices": len({id(c.metadata) for c in t.cells}) if len(t.cells) < 50 else len(t.slices),
+                   "cells": len(t.cells), "keys": ks, **extra}
+
+    d0 = D(2001, 1, 1)
+
+    # -- lesson 1: key counts just below / at / above every 256 boundary and the placeholder slots (136, 392) ------
+    g = []
+    for n in (135, 136, 137, 255, 256, 257, 391, 392, 393):
+        names = [f"k{i:04d}" for i in range(n - 2)]
+        vals = {k: rng.randrange(-99, 99) for k in names}
+        if rng.random() < 0.5:
+            vals = dict(rng.sample(sorted(vals.items()), len(vals)))
+        m = Metadata(details={"a_first": "x"}, loss_details={"zz_last": 1})         # keys sorting before / after the fields
+        g.append(tri([lcell(nk(), d0, D(2001, 12, 31), D(2002, 6, 30), vals, m)], f"keys={n}"))
+    groups.append(("size/keys", g))
+
+    # -- lesson 1: strings of 255 / 256 / 257 / ~32000 / 32767 bytes as key, detail value and metadata string ---------
+    g = []
+    for text, what in (("a" * 255, "255"), ("b" * 256, "256"), ("c" * 257, "257"), ("é" * 128, "256-nonascii"),
+                       ("é" * 127 + "x", "255-nonascii"), ("d" * 32000, "32000"), ("ß" * 16000, "32000-nonascii"),
+                       ("e" * 32767, "32767")):
+        m = Metadata(country=text, currency=text[:300], details={"long": text, text: 1}, loss_details={"s": text[:-1]})
+        g.append(tri([lcell(nk(), d0, D(2001, 12, 31), D(2002, 6, 30), {text: 1, "x" + text[:200]: text and 2.5}, m)],
+                     f"string-bytes={what}"))
+    groups.append(("size/strings", g))
+
+    # -- lesson 1: arrays of 256 / 1000 elements, dims of size 0 / 1, Fortran / strided / reversed views --------------
+    shapes = [(256,), (1000,), (257,), (0,), (1,), (0, 5), (5, 0), (1, 1), (1, 256), (256, 1), (16, 16), (2, 3, 0), (1, 1, 1), ()]
+    cells = []
+    for i, shp in enumerate(shapes):
+        n = int(np.prod(shp)) if shp else 1
+        ia = np.array([rand_int(rng) for _ in range(n)], dtype=np.int64).reshape(shp)
+        fa = np.array([rand_float(rng) for _ in range(n)], dtype=np.float64).reshape(shp)
+        vals = {"i_c": ia, "f_c": fa}
+        if len(shp) >= 2 and n:
+            vals["i_fortran"] = np.asfortranarray(ia)
+            vals["f_transposed_view"] = np.ascontiguousarray(fa.T).T
+        if len(shp) >= 1 and n:
+            big = np.zeros((2 * shp[0],) + shp[1:], dtype=np.float64)
+            v = big[::2]
+            v[...] = fa
+            vals["f_strided"] = v
+            vals["i_reversed"] = np.ascontiguousarray(ia[::-1])[::-1]
+        cells.append(lcell("C", d0 + datetime.timedelta(days=40 * i), d0 + datetime.timedelta(days=40 * i + 30),
+                           D(2003, 1, 15), vals, Metadata(details={"shape": str(shp)})))
+    groups.append(("size/arrays", [tri(cells, "arrays-256-1000-dims-0-1-views")]))
+
+    # -- lesson 1: negative ints and ints beyond 2^31 / 2^32 (values, np.int64, details, arrays) -----------------------
+    vals = {f"v{i:02d}": x for i, x in enumerate(BIG_INTS)}
+    vals.update({f"n{i:02d}": np.int64(x) for i, x in enumerate(BIG_INTS)})
+    vals["arr"] = np.array(BIG_INTS, dtype=np.int64)
+    vals["farr"] = np.array([float(x) for x in BIG_INTS], dtype=np.float64)
+    m = Metadata(per_occurrence_limit=float(2 ** 32 + 1), details={f"d{i:02d}": x for i, x in enumerate(BIG_INTS)},
+                 loss_details={"f31": 2.0 ** 31, "f32": -(2.0 ** 32), "f63": 2.0 ** 63})
+    groups.append(("size/ints", [tri([lcell(nk(), d0, D(2001, 3, 15), D(2001, 4, 15), vals, m)], "ints>2^31,>2^32,negative")]))
+
+    # -- lesson 1: files above 64 KiB and above 1 MiB (incompressible: random bit patterns) -----------------------------
+    def rnd_arrays(n):
+        f = np.frombuffer(rng.getrandbits(64 * n).to_bytes(8 * n, "little"), dtype=np.float64).copy()
+        i = np.frombuffer(rng.getrandbits(64 * n).to_bytes(8 * n, "little"), dtype=np.int64).copy()
+        return {"f": f, "i": i}
+    groups.append(("size/file>64KiB", [tri([lcell(nk(), d0, D(2001, 12, 31), D(2002, 6, 30), rnd_arrays(9000), Metadata(currency="USD"))],
+                                           "file>64KiB")]))
+    if heavy:
+        groups.append(("size/file>1MiB", [tri([lcell(nk(), d0, D(2001, 12, 31), D(2002, 6, 30), rnd_arrays(70000), Metadata(currency="USD"))],
+                                              "file>1MiB,array=70000")]))
+
+    # -- lessons 1 + 4 + 6: >= 1000 cells, every cell its OWN (bit-identical) Metadata object, metadata changing at a
+    #    LATE cell; (lessons 2 + 3) periods sharing a start with different ends, mid-month dates --------------------------
+    for flavour in ("late-slice", "late-limit-only"):
+        kind = nk()
+        kw_a = dict(risk_basis="Accident", country="US", per_occurrence_limit=1e6, details={"cov": "BI", "n": 1}, loss_details={"p": "x"})
+        kw_b = dict(kw_a, country="ZZ") if flavour == "late-slice" else dict(kw_a, per_occurrence_limit=2e6)
+        cells = []
+        for i in range(1003):
+            ps = D(1990, 1, 1) + datetime.timedelta(days=i)
+            cells.append(lcell(kind, ps, ps + datetime.timedelta(days=i % 3), ps + datetime.timedelta(days=45),
+                               {"paid": i, "rep": i / 8.0}, Metadata(**{**kw_a, "details": dict(kw_a["details"]), "loss_details": dict(kw_a["loss_details"])})))
+        for i in range(4):
+            ps = D(1990, 1, 16)
+            cells.append(lcell(kind, ps, D(1990, 2 + i, 15), D(1991, 2, 15), {"paid": -i, "rep": 0.5},
+                               Metadata(**{**kw_b, "details": dict(kw_b["details"]), "loss_details": dict(kw_b["loss_details"])})))
+        rng.shuffle(cells)
+        groups.append((f"many-cells/{flavour}", [tri(cells, f"cells>=1000,{flavour}")]))
+
+    # -- lesson 4: 3-5 slices with the same coordinates and values that differ ONLY in one late metadata attribute -----
+    for attr in ("loss_details", "per_occurrence_limit", "details", "loss_definition"):
+        kind = nk()
+        n_sl = rng.choice([3, 4, 5])
+        base_kw = dict(risk_basis="Policy", country="DE", currency="EUR", reinsurance_basis="Net", loss_definition="Loss",
+                       per_occurrence_limit=250000.0, details={"cov": "PD"}, loss_details={"peril": "wind"})
+        cells = []
+        for j in range(n_sl):
+            kw = {**base_kw, "details": dict(base_kw["details"]), "loss_details": dict(base_kw["loss_details"])}
+            if attr == "loss_details":
+                kw["loss_details"]["peril"] = ["wind", "fire", "hail", "quake", "flood"][j]
+            elif attr == "details":
+                kw["details"]["zone"] = j
+            elif attr == "per_occurrence_limit":
+                kw[attr] = [250000.0, 500000.0, 1e6, 2.5, None][j]
+            else:
+                kw[attr] = ["Loss", "Loss+DCC", "Loss+LAE", "", None][j]
+            m = Metadata(**kw)
+            for q in range(3):
+                cells.append(lcell(kind, D(2010 + q, 1, 1), D(2010 + q, 12, 31), D(2011 + q, 6, 30), {"paid": 100 + q, "rep": 1.5 * q}, m))
+        groups.append((f"late/only-{attr}", [tri(cells, f"late/only-{attr}")]))
+
+    # -- lesson 6: twins written one after the other: same coordinates, Metadata OBJECTS, keys, kinds and sizes - other
+    #    values; then the first again; then the twin with fresh equal Metadata objects ---------------------------------
+    for _ in range(3):
+        for _try in range(20):
+            cells, desc = gen_cells(rng, small=True, n_keys=rng.choice([3, 5, 8, 137]))
+            if len(cells) >= 2:
+                break
+        kind = desc["kind"]
+
+        def rebuild(c, vals, m):
+            return lcell(kind, c.period_start, c.period_end, c.evaluation_date, vals, m, prev=getattr(c, "prev_evaluation_date", None))
+
+        a = cells
+        b = [rebuild(c, {k: other_value(rng, v) for k, v in c.values.items()}, c.metadata) for c in a]
+        fresh = {}
+        for c in a:
+            fresh.setdefault(id(c.metadata), Metadata(**{**c.metadata.__dict__, "details": dict(c.metadata.details),
+                                                         "loss_details": dict(c.metadata.loss_details)}))
+        b2 = [rebuild(c, dict(x.values), fresh[id(c.metadata)]) for c, x in zip(a, b)]
+        groups.append(("twin", [tri(a, "twin/A"), tri(b, "twin/B-other-values"), tri(a, "twin/A-again"),
+                                tri(b2, "twin/B-fresh-metadata-objects")]))
+
+    # -- lesson 7: derived triangles of a parent whose cached accessors (fields, metadata, slices, ...) are warm -------
+    for _ in range(2):
+        fam = []
+        for _try in range(20):
+            fam = gen_family(rng)
+            if fam and len(fam[0][0].cells) >= 3:
+                break
+        if not fam:
+            continue
+        parent = fam[0][0]
+        pdesc = fam[0][1]
+        warm(parent)
+        cs = list(parent.cells)
+        fields = sorted({k for c in cs for k in c.values})
+        evs = sorted({c.evaluation_date for c in cs})
+        last_meta, first = cs[-1].metadata, cs[0]
+        g = [(parent, {**pdesc, "kind": "derived/parent(warm)"})]
+        for tag, fn in (("select(first-field)", lambda: parent.select(fields[:1])),
+                        ("select(last-fields)", lambda: parent.select(fields[1:])),
+                        ("filter(last-slice)", lambda: parent.filter(lambda c: c.metadata == last_meta)),
+                        ("filter(first-cell)", lambda: parent.filter(lambda c: c is first)),
+                        ("clip(max_eval)", lambda: parent.clip(max_eval=evs[0])),
+                        ("t[1:]", lambda: parent[1:]),
+                        ("t[:1]", lambda: parent[:1]),
+                        ("slices[last]", lambda: parent.slices[last_meta]),
+                        ("derive_fields(new first/last)", lambda: parent.derive_fields(**{"0_new": 1, "zzzz_new": 2.5})),
+                        ("derive_metadata(details)", lambda: parent.derive_metadata(details=lambda c: {**c.metadata.details, "0_tag": "t"})),
+                        ("right_edge", lambda: parent.right_edge)):
+            st, d = xcall(fn)
+            if st == "ok" and isinstance(d, Triangle) and len(d):
+                g.append((d, {**pdesc, "kind": f"derived/{tag}", "cells": len(d)}))
+        g.append((parent, {**pdesc, "kind": "derived/parent-again"}))
+        groups.append(("derived", g))
+
+    # -- lesson 8: falsy everywhere: '' / 0 / 0.0 / -0.0 / False in every string, limit, detail and value of every slice;
+    #    then the twin with None in all those places -------------------------------------------------------------------
+    for kind in ("C", "U", "I"):
+        def metas(falsy):
+            out = []
+            for z in (0, -1, -2):           # (0, "", None are not orderable in one triangle)
+                if falsy:
+                    out.append(Metadata(risk_basis="", country="", currency="", reinsurance_basis="", loss_definition="",
+                                        per_occurrence_limit=rng.choice([0.0, -0.0]),
+                                        details={"a": 0, "b": 0.0, "c": False, "d": "", "e": None, "z": z},
+                                        loss_details={"a": "", "b": False, "f": -0.0}))
+                else:
+                    out.append(Metadata(risk_basis="", country=None, currency=None, reinsurance_basis=None, loss_definition=None,
+                                        per_occurrence_limit=None, details={"a": None, "b": None, "c": None, "d": None, "e": None, "z": z},
+                                        loss_details={"a": None, "b": None, "f": None}))
+            return out
+        fv = {"i": 0, "f": 0.0, "nf": -0.0, "b": False, "n": None, "e0": np.zeros(0), "z3": np.zeros(3), "zi": np.zeros(2, dtype=np.int64),
+              "ni": np.int64(0), "n0": np.float64(0.0)}
+        nv = {k: None for k in fv}
+        g = []
+        for falsy, vals_ in ((True, fv), (False, nv), (True, fv)):
+            cells = []
+            for m in metas(falsy):
+                for q in range(2):
+                    cells.append(lcell(kind, D(2015 + q, 1, 1), D(2015 + q, 12, 31), D(2016 + q, 12, 31),
+                                       {k: (v.copy() if isinstance(v, np.ndarray) else v) for k, v in vals_.items()}, m))
+            g.append(tri(cells, "falsy/everywhere" if falsy else "falsy/None-twin"))
+        groups.append(("falsy", g))
+    return groups
+
+
+def records_batch(ctx, drv, triangles, scratch, tag):
+    """Spec.C06.recordsOnChange on the implementation's file (number of metadata records = number of metadata changes
+    along the cells) and to_binary bytes = the writer-as-written `encodePy` — the two checks of `repr_stream`, for
+    given triangles"""
+    reqs, infos = [], []
+    for tri, desc in triangles:
+        if not len(tri):
+            continue
+        wire = raw_cells(tri.cells, strict=False)
+        st, B = xcall(write_file, tri, scratch.path(".trib"))
+        if st != "ok":
+            ctx.fail("to_binary raised on a triangle inside the documented limits", {"cells": wire}, {"error": B})
+            continue
+        reqs.append({"op": "pycase", "cells": wire, "file": B.hex()})
+        infos.append((wire, B, desc))
+    for (wire, B, desc), out in zip(infos, drv.run(reqs)):
+        case = {"cells": wire}
+        ctx.case(digest="records" + json.dumps(wire, sort_keys=True), nontrivial=True, sample=None)
+        ctx.count(f"{tag}/records-on-change checked")
+        if not out["wf"]:
+            ctx.count(f"{tag}/outside-wf")
+            continue
+        if not out["spec"]:
+            ctx.fail("metadata records in the file != metadata changes along the cells (a record only when metadata changes)",
+                     {**case, "file": B.hex() if len(B) < 200000 else f"{len(B)} bytes", "kind": desc.get("kind")},
+                     {"records_in_file": out["fileRecords"], "metadata_changes": out["changes"]})
+        elif bytes.fromhex(out["bytes"]) != B:
+            ctx.disagree("to_binary bytes = Model.encodePy bytes", case, model=out["bytes"][:4000], impl=B.hex()[:4000])
+
+
+def lesson_stream(ctx, drv, scratch, compressed=True, heavy=True):
+    """runs the lesson groups through roundtrip_batch; returns them (C06 re-uses the triangles for order independence)"""
+    if os.environ.get("VERIF_SKIP_LESSONS"):
+        return []
+    groups = lesson_groups(ctx.rng, heavy=heavy)
+    for tag, group in groups:
+        ctx.count(f"lesson/{tag}", len(group))
+        big = any(d.get("cells", 0) > 500 for _, d in group) or "file>" in tag
+        roundtrip_batch(ctx, drv, group, scratch, tag="lesson", compressed=compressed and (not big or "file>" in tag))
+        if "file>" not in tag and "strings" not in tag:
+            records_batch(ctx, drv, group, scratch, "lesson")
+        if len(ctx.spec_failures) > 40:
+            break
+    return groups
+
+
 def make_triangles(ctx, n, small=False, must=()):
     """n random triangles (+ the fixed `must` descriptions first)"""
     rng = ctx.rng
@@ -998,6 +1305,7 @@ def correspondence(ctx):
         repr_stream(ctx, drv, scratch, 300 if ctx.thorough else 40)
         family_stream(ctx, drv, scratch, 60 if ctx.thorough else 8)
         refusal_stream(ctx, drv, scratch, 120 if ctx.thorough else 25)
+        lesson_stream(ctx, drv, scratch, compressed=True, heavy=True)
         for k, n_ in sorted(LAYOUT_SEEN.items()):
             ctx.count(f"array-layout/{k}", n_)
         infer_table(ctx, drv, make_triangles(ctx, 6 if ctx.thorough else 2, small=True), scratch)
@@ -1010,6 +1318,14 @@ RULE = ("random triangles over the full CellValue x MetadataValue lattice: int (
         "393,400); families of related triangles (select / derive_fields / ==-equal metadata copies) written in sequence in one process, with repeats; the empty triangle; .trib and .tribc, explicit and inferred compression; extension x flag table; refusals: arrays of "
         "dtype float32/int32/bool/uint8/float16/int16/uint64/complex128/datetime64 (to_binary: ValueError, then the valid triangle "
         "again), files with another version byte (from_binary: ValueError, Model.decode refuses). "
+        "LESSON groups in every run (histogram lesson/*): 135-137 / 255-257 / 391-393 distinct keys, strings of 255 / 256 / 257 / 32000 / 32767 "
+        "bytes (ASCII and multi-byte) as key, detail value and metadata string, arrays of 256 / 1000 / 257 / 70000 elements and dims of "
+        "size 0 / 1 in C / Fortran / transposed / strided / reversed layout, ints around +-2^31, +-2^32, 2^53, +-2^63 in values, np.int64, "
+        "details and arrays, files > 64 KiB and > 1 MiB (incompressible, both flavours), >= 1000 cells each with its own bit-identical "
+        "Metadata object and a metadata change at a late cell (incl. limit only), 3-5 slices differing only in loss_details / limit / "
+        "details / loss_definition, twins (same coordinates, Metadata objects, keys, kinds, shapes - other values) written A, B, A, B', "
+        "triangles derived from a parent with warm caches, falsy-everywhere triangles and their None twins; lesson groups also go "
+        "through Spec.C06.recordsOnChange. "
         "distinct = distinct raw dump; non-trivial = at least one cell")
 ASSUMPTIONS = [
     "WF (checked by the driver on every generated triangle): strings < 32768 UTF-8 bytes, padded pool < 32768, ints in "
